@@ -134,6 +134,9 @@ def selection_rule(chk, facts, rule, unit, fn):
 
 
 def run(chk, facts, info):
+    from . import c05_overlap
+    c05_overlap.rule_r11(chk, facts)
+    c05_overlap.rule_r12(chk, facts)
     P = facts.program('p2bin')
     chk.rule('C05-R1', 'the argument of FilterOK() is the variable bound to ReadRecordHeader()\'s CPU out-parameter '
              '(p2bin, p2hex, pbind)', min_instances=5)
